@@ -120,6 +120,7 @@ func runC09(c *core.Ctx, r *core.Reporter) {
 	c09nilret(c, r)
 	c09errnil(c, r)
 	hashKeyRules(c, r, "C09.key", false)
+	runRuneUnits(c, r, "C09.units", 100)
 	r.Rule("C09.nilphi", "a pointer variable that is nil on some path (a branch leaves it unassigned, or it was found nil and flows on unchanged) is dereferenced only where the facts that hold exclude that path (per incoming edge of the phi; edges from raising blocks do not count)", 15)
 	nilPhi(c, r, "C09.nilphi", func(fn *ssa.Function) bool {
 		rel := core.RelPkg(fn.Pkg.Pkg.Path())
